@@ -634,4 +634,14 @@ theorem C10_after_crash_no_orphans (t : List Op) (hd : RegDisc Dir.empty t) (hd4
     ∀ p ∈ (fullGC (ofImage img) []).dir, p ∈ living (ofImage img) :=
   C10_after_crash_registered t hd k img hn hi hm (C10_meta_json_is_managed t hd4 k img.toImage hi hm hx)
 
+/-- no orphans at quiescence, for the event-level collection: after `gcCompute`, one successful
+`gcDelete` per selected path and `gcFinish`, every remaining file is living -/
+theorem C10_no_orphans_small_step (s : St) (hreg : ∀ p ∈ s.dir, p ∈ s.managed) :
+    ∀ p ∈ (s.run (fullGCSteps s [])).dir, p ∈ living s := by
+  intro p hp
+  exact C10_no_orphans_quiescent s hreg p (((C10_small_step_refines_fullGC s []).1 p).mp hp)
+
+example : ∀ p ∈ (demo.run (fullGCSteps demo [])).dir, p ∈ living demo :=
+  C10_no_orphans_small_step demo (by decide)
+
 end TantivyModel.C10
